@@ -294,6 +294,13 @@ def run(ctx):
                           {"w": 8192, "base": 8188, "rounds": 12 if thorough else 3, "reorgs": 60, "readers": 3,
                            "seed": ctx.seed}, timeout=2400)
     ctx.absorb(resc, "events", "TestEventsConcurrent")
+    # C09 does not quantify over schedules: what a query whose range OVERLAPS concurrently
+    # stored/reverted blocks returns is an observation, never a verdict
+    nobs = int(resc.get("stats", {}).get("observations", 0) or 0)
+    ctx.coverage["observations"] = nobs
+    ctx.coverage["observation_samples"] = resc.get("stats", {}).get("observation_samples") or []
+    for o in ctx.coverage["observation_samples"][:4]:
+        print("OBSERVATION: property=C09 (query range overlaps concurrent Store/RevertHead) %s" % o[:400], flush=True)
 
     if thorough:
         b2 = []
@@ -337,4 +344,9 @@ def run(ctx):
         "(random blocks of 0..2 txs x 0..2 events over 2 addresses and 2 keys x 2 positions, reverts, restarts, queries "
         "with random filter/range/chunk/limit) on a real Blockchain over a base image of 8188 (thorough: also 16380) "
         "blocks with the real window size; every step compares results, pages, tokens, persisted windows and snapshot; "
-        "non-trivial = every behaviour stores blocks in the 8191|8192 boundary region and ends with single-atom probes")
+        "non-trivial = every behaviour stores blocks in the 8191|8192 boundary region and ends with single-atom probes. "
+        "Concurrent round (C09 has no 'schedules' quantifier): VERDICT only for (V1) queries over a stable range that no "
+        "concurrent Store/RevertHead touches = naive scan, (V2) sequentially observable state: queries by the only writer "
+        "between its calls and after it finished, before/after restart, are exact, (V3) panics; anything about a query "
+        "whose range overlaps concurrently mutated blocks, and watchdog time-outs, are OBSERVATION lines counted in "
+        "coverage.observations, never divergences")
